@@ -106,6 +106,17 @@ Additional Inputs:
   def __repr__(self):
     return "When(%s)" % str(self[0])
 
+  # compound conditions are equal only if they are the same kind of compound
+  # (an And and an Or of the same members are different conditions)
+  def __eq__(self, other):
+    return _type(self) is _type(other) and tuple.__eq__(self, other)
+
+  def __ne__(self, other):
+    return not self.__eq__(other)
+
+  def __hash__(self):
+    return hash((_type(self).__name__, tuple.__hash__(self)))
+
 class And(When):
   """couple termination conditions with "and".
 
